@@ -67,12 +67,16 @@ func checkC05(c *Check) {
 		if len(conn) != 1 {
 			c.Fail("R2", "attemptMX:connect", r.FI.Decl.Pos(), "undecided: expected exactly one connect call")
 		} else {
-			policyLoop := func(method string) (*ast.RangeStmt, *ast.CallExpr) {
-				var rs *ast.RangeStmt
+			policyLoop := func(method string) (*ElemLoop, *ast.CallExpr) {
+				var rs *ElemLoop
 				var pc *ast.CallExpr
-				for _, l := range rangesIn(r.FI.Decl.Body, func(rs *ast.RangeStmt) bool { return isField(r.Info, rs.X, "remoteDelivery", "policies") }) {
+				for _, l := range elemLoops(r.Info, r.FI.Decl.Body, func(e ast.Expr) bool { return isField(r.Info, e, "remoteDelivery", "policies") }) {
+					if !l.Whole {
+						continue
+					}
+					l := l
 					ast.Inspect(l.Body, func(n ast.Node) bool {
-						if call, ok := n.(*ast.CallExpr); ok && methodName(call) == method && l.Value != nil && recvObj(r.Info, call) == objOf(r.Info, l.Value) {
+						if call, ok := n.(*ast.CallExpr); ok && methodName(call) == method && l.IsElem(callRecv(call)) {
 							rs, pc = l, call
 						}
 						return true
@@ -97,12 +101,7 @@ func checkC05(c *Check) {
 				})
 				ppt, _ := r.F.PtOf(pcall.Pos())
 				// loop completion point: RangeDone
-				var done []Pt
-				for _, b := range r.F.G.Blocks {
-					if b.Kind == kindRangeDone && b.Stmt == ast.Stmt(rs) {
-						done = append(done, Pt{b, 0})
-					}
-				}
+				done := r.F.LoopDone(rs)
 				if m == "CheckMX" {
 					if ok, w := r.MustPass(r.Entry(), true, isPt(conn), isPt(done)); !ok {
 						msg = "the dial is reachable without the MX checks having completed: " + w
@@ -132,7 +131,7 @@ func checkC05(c *Check) {
 						msg = "a connection that failed a policy check is left open and attached to the delivery: " + w2
 					}
 				}
-				c.Hold("R2", key, rs.Pos(), msg == "", msg)
+				c.Hold("R2", key, rs.Stmt.Pos(), msg == "", msg)
 			}
 			// levels: stores to conn.mxLevel / conn.tlsLevel only after the CheckConn loop completed
 			rsC, _ := policyLoop("CheckConn")
@@ -144,12 +143,7 @@ func checkC05(c *Check) {
 				msg = "the levels established for the connection are not recorded"
 			}
 			if rsC != nil {
-				var done []Pt
-				for _, b := range r.F.G.Blocks {
-					if b.Kind == kindRangeDone && b.Stmt == ast.Stmt(rsC) {
-						done = append(done, Pt{b, 0})
-					}
-				}
+				done := r.F.LoopDone(rsC)
 				for _, st := range stores {
 					if ok, w := r.MustPass(r.Entry(), true, isPt([]Pt{st}), isPt(done)); !ok {
 						msg = "a security level is recorded on the connection before all policy checks passed (it survives a failed attempt and is inherited by the next MX candidate): " + w
@@ -198,7 +192,12 @@ func checkC05(c *Check) {
 	c.Rule("R4", "a connection opened without the policy list (override) is never returned to the pool", 2)
 	var overrideFields []*types.Var
 	if r := c.need("R3", remoteRel, "Target", "Start"); r != nil {
-		loops := rangesIn(r.FI.Decl.Body, func(rs *ast.RangeStmt) bool { return isField(r.Info, rs.X, "Target", "policies") })
+		var loops []*ElemLoop
+		for _, l := range elemLoops(r.Info, r.FI.Decl.Body, func(e ast.Expr) bool { return isField(r.Info, e, "Target", "policies") }) {
+			if l.Whole {
+				loops = append(loops, l)
+			}
+		}
 		msg := ""
 		if len(loops) != 1 {
 			msg = "undecided: expected one loop over the configured policies"
@@ -206,7 +205,7 @@ func checkC05(c *Check) {
 			// enclosing if conditions
 			var conds []ast.Expr
 			ast.Inspect(r.FI.Decl.Body, func(n ast.Node) bool {
-				if is, ok := n.(*ast.IfStmt); ok && posIn(is.Body, loops[0].Pos()) {
+				if is, ok := n.(*ast.IfStmt); ok && posIn(is.Body, loops[0].Stmt.Pos()) {
 					conds = append(conds, is.Cond)
 				}
 				return true
@@ -534,17 +533,27 @@ func checkC05(c *Check) {
 		if r == nil {
 			continue
 		}
+		isSend := calling("~/"+remoteRel+".remoteDelivery.connectionForDomain", "~/internal/smtpconn.C.Rcpt", "~/internal/smtpconn.C.Data", "~/internal/smtpconn.C.Mail")
+		sendsVia := func(call *ast.CallExpr) bool {
+			if isSend(r.Info, call) {
+				return true
+			}
+			if fn := callee(r.Info, call); fn != nil && fn.Pkg() == r.FI.Obj.Pkg() && fn != r.FI.Obj {
+				return c.P.reachesCall(c.P.DeclOf(fn), isSend, 2)
+			}
+			return false
+		}
 		sending := func(pt Pt) bool {
 			for _, call := range callsAt(pt.Node()) {
-				if isCall(r.Info, call, "~/"+remoteRel+".remoteDelivery.connectionForDomain", "~/internal/smtpconn.C.Rcpt", "~/internal/smtpconn.C.Data", "~/internal/smtpconn.C.Mail") {
+				if sendsVia(call) {
 					return true
 				}
 			}
-			// goroutines that send
+			// goroutines that send (closure body or a method started with go)
 			if g, ok := pt.Node().(*ast.GoStmt); ok {
-				found := false
+				found := sendsVia(g.Call)
 				ast.Inspect(g, func(x ast.Node) bool {
-					if call, ok := x.(*ast.CallExpr); ok && isCall(r.Info, call, "~/internal/smtpconn.C.Data") {
+					if call, ok := x.(*ast.CallExpr); ok && sendsVia(call) {
 						found = true
 					}
 					return true
